@@ -71,7 +71,26 @@ fn show(a: &M2) -> String {
 /// an Fq2 operand: components possibly related / zero
 pub fn fq2_operand(s: &mut Src, info: &mut Info, tag: &str) -> M2 {
     let q = zp::q();
-    let (re, im) = match s.weighted(&[6, 2, 2, 3, 2]) {
+    let (re, im) = match s.weighted(&[6, 2, 2, 3, 2, 1]) {
+        5 => {
+            // an element of norm c^2 for small c: c * w / conj(w)  (norm-dependent shortcuts, e.g. in inverse)
+            let a = felt(s, Md::Q).v;
+            let b = felt(s, Md::Q).v;
+            let c = BigUint::from(1 + s.choose(3) as u32);
+            info.class("comp-rel:norm-small-square");
+            let two = BigUint::from(2u32);
+            let a2 = zp::mul_mod(&a, &a, q);
+            let b2 = zp::mul_mod(&two, &zp::mul_mod(&b, &b, q), q);
+            let n = (&a2 + &b2) % q;
+            match zp::inv_mod(&n, q) {
+                Some(ni) => {
+                    let re = zp::mul_mod(&((&a2 + q - &b2) % q), &ni, q);
+                    let im = zp::mul_mod(&zp::mul_mod(&two, &zp::mul_mod(&a, &b, q), q), &ni, q);
+                    (zp::mul_mod(&re, &c, q), zp::mul_mod(&im, &c, q))
+                }
+                None => (c, BigUint::zero()),
+            }
+        }
         4 => {
             // imaginary part = zeta * real part for a root of unity zeta of order 2, 3, 4 or 6
             let a = felt(s, Md::Q);
